@@ -277,6 +277,7 @@ class ConcEnv:
         self.results = {}  # claim name -> bool
         self.detail = {}
         self.assume_failed = []
+        self.assume_ok_at = {}  # claim name -> no assumption had failed when the claim was evaluated (assumptions are not retroactive)
         self.notes = {}
 
     def real(self, name, lo=None, hi=None, strict_lo=False, strict_hi=False):
@@ -365,6 +366,7 @@ class ConcEnv:
 
     def claim(self, name, cond, key=None, under=None, meta=None, extra_axioms=()):
         cond = _cond(cond)
+        self.assume_ok_at[name] = not self.assume_failed
         if under is not None and not bool(under):
             self.results[name] = True
             return
@@ -500,7 +502,12 @@ def run_body(body, name, tier, seed, functions=(), bounds=None, stubs=(), timeou
             detail = ""
             try:
                 body(env)
-                if env.assume_failed:
+                if cname in env.results and not env.results[cname] and env.assume_ok_at.get(cname, True):
+                    # the claim fails on the real code and every assumption placed before it held (an assumption that fails
+                    # *after* the claim - e.g. a cut justified by this very claim - does not excuse it)
+                    reproduced = True
+                    detail = "(replayed from the solver's intermediate state at the cut points)" if inject else ""
+                elif env.assume_failed:
                     detail = "model left the assumed region after conversion to float: %s" % env.assume_failed
                 elif cname in env.results and not env.results[cname]:
                     reproduced = True
